@@ -137,17 +137,62 @@ let do_builder mask ops =
         let ((r, h1), k1) = Oomtxn.holder2_step ok true (Oomtxn.CNewSection (cz_of_string (tail tok))) !h !k in
         h := h1; k := k1; r
       | c ->
-        let op = (match c with 'n' -> Oomtxn.BNewLabel | 'b' -> Oomtxn.BBind (arg ()) | 's' -> Oomtxn.BSection (arg ()) | 'i' -> Oomtxn.BInst | _ -> failwith "bop") in
+        let op = (match c with
+          | 'n' -> Oomtxn.BNewLabel | 'b' -> Oomtxn.BBind (arg ()) | 's' -> Oomtxn.BSection (arg ()) | 'i' -> Oomtxn.BInst
+          | 'l' -> Oomtxn.BAlign | 'e' -> Oomtxn.BEmbed | 'E' -> Oomtxn.BEmbedLabel (arg ()) | 'c' -> Oomtxn.BComment
+          | 'C' -> Oomtxn.BCursor (arg ()) | 'p' -> Oomtxn.BConstPool (arg ()) | _ -> failwith "bop") in
         let (((r, h1), b1), k1) = Oomtxn.builder_step ok op !h !bl !k in
         h := h1; bl := b1; k := k1; r in
-    Buffer.add_string b (Printf.sprintf " %d/%d/%d/%d/%d" (rc r) (List.length !h.Oomtxn.h2_base.Oomtxn.ho_labels) (List.length !bl.Oomtxn.b_lnodes)
-                           (List.length !bl.Oomtxn.b_snodes) (List.length !h.Oomtxn.h2_sects.Oomtxn.ss_orders))) ops;
+    Buffer.add_string b (Printf.sprintf " %d/%d/%d/%d/%d/%d" (rc r) (List.length !h.Oomtxn.h2_base.Oomtxn.ho_labels) (List.length !bl.Oomtxn.b_lnodes)
+                           (List.length !bl.Oomtxn.b_snodes) (List.length !h.Oomtxn.h2_sects.Oomtxn.ss_orders) (int_of_nat !bl.Oomtxn.b_cursor))) ops;
   Buffer.add_string b " |";
-  List.iter (fun (sid, ns) ->
-    Buffer.add_string b (Printf.sprintf " S%d" (int_of_nat sid));
-    List.iter (fun n -> Buffer.add_string b (match n with Oomtxn.NInst -> " I" | Oomtxn.NLabel li -> Printf.sprintf " L%d" (int_of_nat li))) ns) !bl.Oomtxn.b_secs;
+  List.iter (fun n -> Buffer.add_string b (match n with
+    | Oomtxn.NSection sid -> Printf.sprintf " S%d" (int_of_nat sid) | Oomtxn.NInst -> " I" | Oomtxn.NLabel li -> Printf.sprintf " L%d" (int_of_nat li)
+    | Oomtxn.NAlign -> " A" | Oomtxn.NEmbed -> " D" | Oomtxn.NComment -> " C" | Oomtxn.NEmbedLabel li -> Printf.sprintf " E%d" (int_of_nat li))) !bl.Oomtxn.b_nodes;
   Buffer.add_string b (" | l" ^ String.concat "" (List.map (fun x -> if x then "1" else "0") !bl.Oomtxn.b_lnodes));
   Buffer.add_string b (" | s" ^ String.concat "" (List.map (fun x -> if x then "1" else "0") !bl.Oomtxn.b_snodes));
+  Buffer.add_string b (Printf.sprintf " req=%d" (int_of_nat !k));
+  print_endline (Buffer.contents b)
+
+let oracle_pair (m : string) =
+  if m = "none" then ((fun _ -> true), (fun _ -> true))
+  else begin
+    let rest = String.sub m 2 (String.length m - 2) in
+    match m.[0] with
+    | 'v' -> (oracle_of_mask rest, (fun _ -> true))
+    | 'h' -> ((fun _ -> true), oracle_of_mask rest)
+    | _ -> failwith "vm mask"
+  end
+
+let do_vm dual mask ops =
+  let (okv, okh) = oracle_pair mask in
+  let b = Buffer.create 256 in
+  Buffer.add_string b (if dual then "S vmd" else "S vm");
+  let s = ref Oomtxn.vms_init and kv = ref Oomtxn.O and kh = ref Oomtxn.O in
+  List.iter (fun tok ->
+    let arg () = nat_of_int (int_of_string (tail tok)) in
+    let op = match tok.[0] with
+      | 'm' -> Oomtxn.VMap | 'd' -> Oomtxn.VDual | 'u' -> Oomtxn.VRel (arg ()) | 'b' -> Oomtxn.VBlock dual | 'x' -> Oomtxn.VDel (arg ())
+      | _ -> failwith "vmop" in
+    let (((r, s1), kv1), kh1) = Oomtxn.vm_step okv okh op !s !kv !kh in
+    s := s1; kv := kv1; kh := kh1;
+    Buffer.add_string b (Printf.sprintf " %d/%d/%d" (rc r) (List.length s1.Oomtxn.vs_views) (int_of_nat s1.Oomtxn.vs_heap))) ops;
+  Buffer.add_string b (Printf.sprintf " | end 0/0/0 req=%d,%d" (int_of_nat !kv) (int_of_nat !kh));
+  print_endline (Buffer.contents b)
+
+let do_ra mask ops =
+  let ok = oracle_of_mask mask in
+  let b = Buffer.create 256 in
+  Buffer.add_string b "S ra";
+  let s = ref (Oomtxn.ras_init (nat_of_int 8)) and k = ref Oomtxn.O in
+  List.iter (fun tok ->
+    let w = nat_of_int ((int_of_string (tail tok)) mod 8) in
+    let op = match tok.[0] with 'g' -> Oomtxn.RGet w | 'a' -> Oomtxn.RAsMem w | _ -> failwith "raop" in
+    let ((r, s1), k1) = Oomtxn.ra_step ok op !s !k in
+    s := s1; k := k1;
+    Buffer.add_string b (Printf.sprintf " %d/%d/%d/%s" (rc r) (List.length s1.Oomtxn.ra_slots) (zi s1.Oomtxn.ra_cap)
+                           (String.concat "" (List.map (fun x -> if x then "1" else "0") s1.Oomtxn.ra_home)))) ops;
+  Buffer.add_string b (" | " ^ join " " (List.map (fun n -> string_of_int (int_of_nat n)) !s.Oomtxn.ra_slots));
   Buffer.add_string b (Printf.sprintf " req=%d" (int_of_nat !k));
   print_endline (Buffer.contents b)
 
@@ -164,6 +209,9 @@ let () =
         | "S" :: "pool" :: mask :: ops -> do_pool mask ops
         | "S" :: "holder" :: mask :: ops -> do_holder mask ops
         | "S" :: "builder" :: mask :: ops -> do_builder mask ops
+        | "S" :: "ra" :: mask :: ops -> do_ra mask ops
+        | "S" :: "vm" :: mask :: ops -> do_vm false mask ops
+        | "S" :: "vmd" :: mask :: ops -> do_vm true mask ops
         | [] -> ()
         | _ -> print_endline "BAD"
       with Failure m -> print_endline ("BAD " ^ m))
